@@ -803,12 +803,18 @@ pub fn packed_replay(o: &Opts) -> R<()> {
             let k = names.len() + 1;
             *names.entry(v).or_insert(k)
         };
+        let share: Option<(usize, usize)> = c["share"].as_array().filter(|a| a.len() == 2).map(|a| (a[0].as_u64().unwrap() as usize, a[1].as_u64().unwrap() as usize));
+        let mut shared_var: Option<TypeVariable> = None;
         let mut build = |shape: &J, state: &mut TypeCheckerState, names: &mut std::collections::HashMap<TypeVariable, usize>| -> (TE, Vec<J>) {
             let mut spans = Vec::new();
             let mut desc = Vec::new();
             for iv in shape.as_array().unwrap() {
                 let (a, b) = (iv[0].as_u64().unwrap() as usize, iv[1].as_u64().unwrap() as usize);
-                let v = unsafe { state.allocate_ty_var() };
+                let v = if share == Some((a, b)) {
+                    *shared_var.get_or_insert_with(|| unsafe { state.allocate_ty_var() })
+                } else {
+                    unsafe { state.allocate_ty_var() }
+                };
                 spans.push(Span::new(v, a * unit, (b - a) * unit));
                 desc.push(json!([a * unit, (b - a) * unit, name(v, names)]));
             }
